@@ -222,12 +222,18 @@ CLAIMS = {
               "allocations on any dates (restarts are the identity: the manager re-reads its file), every suffix is 2-3 "
               "characters of the 51-character alphabet without look-alikes, the successor chain has exactly 135,252 "
               "members, every allocated ZID is accepted by is_zid and by the ZID lexer rule of both grammars while no "
-              "higher-priority token rule matches it. Tied to the code by an exhaustive comparison of all 135,252 "
-              "successor steps, random multi-date histories with restarts, both generated ANTLR lexers and recompilation."),
+              "higher-priority token rule matches it. The SOURCE of _get_next_id, is_short_date_spec and is_zid is translated "
+              "on every run (harness/translate_py.py, fail-closed) into a deep embedding with an interpreter (Lex/PyLite.v): "
+              "C07_source_successor_is_model proves that the source, as it is now, returns the model's successor on all "
+              "135,252 suffixes and raises exactly where the model does, C07_source_is_zid_accepts that it accepts every "
+              "allocatable shape - a change to those functions breaks these proof obligations directly. Also tied by an "
+              "exhaustive comparison of all 135,252 successor steps against the running code, random multi-date histories "
+              "with restarts, both generated ANTLR lexers and recompilation."),
         note=("Trusted: Coq kernel incl. vm_compute (finite-domain lemmas over 135,252 suffixes and 36,525 dates); scraper "
-              "and .g4 translator; ANTLR's maximal-munch lexing is tested, not proved; recompilation (enterId) is tested, "
+              "the .g4 translator and the Python-to-PyLite translator with the PyLite interpreter (its semantics of the "
+              "fragment used is itself checked by the exhaustive comparison with the running code); ANTLR's maximal-munch lexing is tested, not proved; recompilation (enterId) is tested, "
               "its proof belongs to C01. Known finding: the last suffix zzz is never handed out (135,251 allocations)."),
-        technique="Rocq proof (invariant over allocation histories; finite-domain lemmas by vm_compute; regenerated tables) + exhaustive correspondence",
+        technique="Rocq proof (invariant over allocation histories; finite-domain lemmas by vm_compute; model REGENERATED from source: lexer rules, constants and the Python source of the ZID helpers via a deep embedding) + exhaustive correspondence",
         design="§5 C07"),
     "C18": dict(
         text=("Rocq proof: the executable model of expand_file_group_paths is sound and complete for the big-step "
